@@ -696,13 +696,22 @@ func (rn *runner) randEnv() env {
 }
 
 func (rn *runner) randFail() int {
-	if rn.g.pick(7) == 0 {
-		return rn.g.pick(3)
+	switch k := rn.g.pick(20); {
+	case k < 3:
+		return 0
+	case k < 5:
+		return 1
+	case k < 6:
+		return 2
 	}
 	return -1
 }
 
 func (rn *runner) evMsg(msg []byte) {
+	if (rn.pendRej || rn.pendGr) && strings.Contains(msgViews(msg), "close=announce") && !bytes.Contains(msg, []byte("datagram")) {
+		// the announce handler sleeps 500 ms: a sleeping closer would fire in the middle of it
+		return
+	}
 	line := "msg raw=" + hex.EncodeToString(msg) + " " + msgViews(msg)
 	rn.do(line, rn.randEnv(), rn.randFail(), func() { rn.conn.HandleIncomingWebsocketMessage(msg) })
 }
@@ -729,6 +738,7 @@ func runScenario(id int, seed int64, maxEvents int) *scenario {
 
 	// bias of this scenario: how cooperative the peer is
 	coop := 55 + g.pick(40)
+	postTerm := 0
 	for n := 0; n < maxEvents && !rn.dead; n++ {
 		// the sleeping closers of the implementation fire on their own after 1 s / 500 ms: keep clear of that
 		if rn.pendRej && time.Since(rn.rejSince) > 500*time.Millisecond {
@@ -740,7 +750,53 @@ func runScenario(id int, seed int64, maxEvents int) *scenario {
 		st, trun, _, _, _ := conn.VerifSnapshot()
 		open := !w.isClosed()
 		slow := rn.pendRej || rn.pendGr // no 500 ms waits while a closer is pending
+		if st == 15 || st == 16 || st == 17 || st == 39 || !open {
+			postTerm++
+			if postTerm > 4 {
+				break
+			}
+		}
 		k := g.pick(100)
+		if st == 38 && open && !rn.cbSeen && g.pick(2) == 0 {
+			// completed connection: data in both directions and the ways it can end
+			switch c := g.pick(20); {
+			case c < 6:
+				rn.evMsg(g.randData())
+			case c < 11:
+				rn.appWrite()
+			case c < 14:
+				if !rn.pendGr {
+					code := []int{0, 4500}[g.pick(2)]
+					rn.do(fmt.Sprintf("close safe=1 code=%d reason=%s", code, hex.EncodeToString([]byte(w.reason))),
+						rn.randEnv(), rn.randFail(), func() { conn.CloseConnection(true, code, w.reason) })
+					if !rn.cbSeen {
+						rn.pendGr = true
+						rn.grSince = time.Now()
+					}
+				}
+			case c < 16:
+				if !slow {
+					rn.evMsg(closeMsg("announce"))
+				}
+			case c < 17:
+				rn.evMsg(closeMsg("confirm"))
+			case c < 18:
+				w.setClosed()
+				rn.do("connerr", rn.randEnv(), rn.randFail(), func() { conn.ReportConnectionError(fmt.Errorf("transport down")) })
+			default:
+				rn.evMsg(g.anyValid())
+			}
+			continue
+		}
+		// a pending pairing request: the user's decision is the interesting event
+		if st == 11 && !rn.cbSeen && g.pick(4) == 0 {
+			if g.pick(3) != 0 {
+				rn.do("approve", rn.randEnv(), rn.randFail(), func() { conn.ApprovePendingHandshake() })
+			} else {
+				rn.do("abort", rn.randEnv(), rn.randFail(), func() { conn.AbortPendingHandshake() })
+			}
+			continue
+		}
 		switch {
 		case k < coop && open:
 			m := g.inPhase(st)
@@ -762,7 +818,15 @@ func runScenario(id int, seed int64, maxEvents int) *scenario {
 			switch g.pick(12) {
 			case 0, 1:
 				if trun {
-					rn.do("timeout", rn.randEnv(), rn.randFail(), func() { conn.VerifFireTimeout() })
+					e := rn.randEnv()
+					_, _, tt, _, _ := conn.VerifSnapshot()
+					rn.do("timeout", e, rn.randFail(), func() { conn.VerifFireTimeout() })
+					if st == 11 && !e.allow && tt == 1 && !rn.dead {
+						// handshakeHello_PendingTimeout arms the reply timer with
+						// time.Duration(66000) = 66 µs when no waiting value was received:
+						// the real timer fires at once. Record that as its own timeout event.
+						rn.spontaneousTimeout(e)
+					}
 				}
 			case 2, 3:
 				if !rn.cbSeen {
@@ -791,17 +855,7 @@ func runScenario(id int, seed int64, maxEvents int) *scenario {
 				}
 			case 7, 8:
 				if rn.setup {
-					rn.p.mu.Lock()
-					wr := rn.p.writer
-					rn.p.mu.Unlock()
-					valid := g.pick(6) != 0
-					g.payload++
-					pl := fmt.Sprintf(`{"datagram":{"w":%d}}`, g.payload)
-					if !valid {
-						pl = `{"datagram":`
-					}
-					rn.do(fmt.Sprintf("appwrite valid=%s payload=%s", b01(valid), hex.EncodeToString([]byte(pl))),
-						rn.randEnv(), rn.randFail(), func() { wr.WriteShipMessageWithPayload([]byte(pl)) })
+					rn.appWrite()
 				}
 			case 9:
 				if rn.pendRej {
@@ -837,6 +891,58 @@ func runScenario(id int, seed int64, maxEvents int) *scenario {
 	r.mu.Unlock()
 	sc.elapsed = time.Since(start)
 	return sc
+}
+
+// wait for the implementation's own (very short) timer to fire and record what it did
+func (rn *runner) spontaneousTimeout(e env) {
+	st0, trun, _, _, _ := rn.conn.VerifSnapshot()
+	if !trun || st0 != 11 {
+		return
+	}
+	fired := false
+	rn.do("timeout", e, -1, func() {
+		deadline := time.Now().Add(40 * time.Millisecond)
+		for time.Now().Before(deadline) {
+			st, _, _, _, _ := rn.conn.VerifSnapshot()
+			if st != 11 {
+				fired = true
+				break
+			}
+			time.Sleep(200 * time.Microsecond)
+		}
+		if fired {
+			// let the handler finish (abort message, state 15 or 39)
+			for i := 0; i < 200; i++ {
+				st, _, _, _, _ := rn.conn.VerifSnapshot()
+				if st == 15 || st == 39 {
+					break
+				}
+				time.Sleep(200 * time.Microsecond)
+			}
+			time.Sleep(2 * time.Millisecond)
+		}
+	})
+	if !fired {
+		// the armed timer is a long one: nothing happened, drop the record
+		n := len(rn.sc.events)
+		rn.sc.events = rn.sc.events[:n-1]
+		rn.sc.outs = rn.sc.outs[:n-1]
+	}
+}
+
+func (rn *runner) appWrite() {
+	g := rn.g
+	rn.p.mu.Lock()
+	wr := rn.p.writer
+	rn.p.mu.Unlock()
+	valid := g.pick(6) != 0
+	g.payload++
+	pl := fmt.Sprintf(`{"datagram":{"w":%d}}`, g.payload)
+	if !valid {
+		pl = `{"datagram":`
+	}
+	rn.do(fmt.Sprintf("appwrite valid=%s payload=%s", b01(valid), hex.EncodeToString([]byte(pl))),
+		rn.randEnv(), rn.randFail(), func() { wr.WriteShipMessageWithPayload([]byte(pl)) })
 }
 
 func (rn *runner) fireGrace() {
